@@ -1,6 +1,7 @@
 """C15 - CRC-32 equals the standard; generic reflected CRC equals bit-by-bit division; forging helpers hit any target."""
 import zlib, struct
 from mc.engine import Sub, HSystem, hsub, canon
+from mc.checks.firstuse import firstuse_sub
 import importlib
 from mc.common import ramp, expander, DATA
 
@@ -263,8 +264,24 @@ def crc_systems(tier):
     return {'crc-module': CrcSys()}
 
 
+PROP_ = 'C15'
+
+
+def fu_targets():
+    import crysp.crc as C
+    from crysp.bits import Bits
+    m = expander(150, 3)
+    t = {'crc32': (lambda: C.crc32(m), zlib.crc32(m))}
+    want = m[:20] + b'\0\0\0\x01' + m[24:]
+    t['crc32_fix_pos'] = (lambda: C.crc32_fix_pos(m, 20, zlib.crc32(want)), want)
+    t['crc32_back_pos'] = (lambda: C.crc32_back_pos(m, 7, zlib.crc32(m)), zlib.crc32(m[:7]) ^ 0xffffffff)
+    t['crc-16'] = (lambda: C.crc(m, C.crc_table(Bits(0xA001, 16)), 0xffff, 0), bitwise_crc(0xA001, 16, m, 0xffff, 0))
+    t['crc-64'] = (lambda: C.crc(m, C.crc_table(Bits(0xC96C5795D7870F42, 64)), 0, (1 << 64) - 1), bitwise_crc(0xC96C5795D7870F42, 64, m, 0, (1 << 64) - 1))
+    return t
+
+
 def subchecks():
-    return [
+    return [firstuse_sub(PROP_, fu_targets, every=2),
         Sub('crc32', pts_crc32, run_crc32, engine='D', bound='every byte string of length 0..2 (65793) and 6 data patterns at every length 3..64 (thorough ..128) vs zlib.crc32'),
         Sub('width8', pts_w8, run_w8, engine='D', bound='every reflected polynomial of width 8 x every 1-byte input x init/final in {0,FF}^2 vs bit-by-bit division'),
         Sub('generic', pts_generic, run_generic, engine='P', exhaustive=False,
